@@ -38,6 +38,16 @@ CHECKS = {
             "Generated-input search against explicit oracles: no panic under recover for every exported helper/constructor with options drawn from ALL exported options (every subset/order reachable), ConvertString(wrap(s)) == s with an independent BER encoder, SIDBytesToString(SIDBytes(r,a)) == S-r-a (exhaustive over all 2^24 pairs in the thorough tier), NewEntry strictly sorted and stable, Values/ByteValues agreement after AddValue sequences; response constructors run inside real handlers on real requests and are written to the socket. Finds violations, cannot show absence beyond the enumerated SID space.",
             "trusts the harness's own BER encoder (wire) for the wrap direction and Go's recover for panic detection",
             "DESIGN.md §4 C16"),
+    "C19": ("exploration",
+            "property-based testing (rapid) of the bind decision against a three-line reference predicate, over plain/TLS/StartTLS with two independent clients",
+            "Generated user sets (prefix/extension/case-variant/duplicate DNs, missing/empty/multi-valued passwords), both anonymous-bind settings (Set* on a running directory and WithDefaults at Start) and bind DN/password pairs related to the user set are sent through go-ldap SimpleBind and the raw independent client; the result code must be success iff the reference predicate of the statement holds, else 49. Exploration.",
+            "trusts the reference predicate (copied from the statement) and go-ldap's result-code reporting; the shared directory is reconfigured between cases with no request in flight",
+            "DESIGN.md §4 C19"),
+    "C20": ("exploration",
+            "stateful model-based testing (rapid-generated operation sequences) of the test directory against an in-memory reference store, full read-back after every step",
+            "Sequences of up to 30 Add/Modify/Delete/Search/SetUsers/SetGroups steps by 1..3 clients are applied to a running directory and to a map-based model in lock-step; after every step every DN of the pool is searched and compared with the model (existence, attributes, values modulo one level of OCTET STRING wrapping), result codes 68/32/0 are checked per operation. Exploration over histories; entry DNs are fixed-width so none is a substring of another (the statement's precondition).",
+            "trusts the reference model; replace of an attribute that does not exist is left unspecified (untracked until a delete-attribute), group modification is not demanded",
+            "DESIGN.md §4 C20"),
 }
 
 PENDING = {
